@@ -663,3 +663,11 @@ Section Named.
     o_after (tl_step vld l o) = l -> In ev (o_events (tl_step vld l o)) -> replay l ev = Some l.
   Proof. intros E H. rewrite <- E at 2. apply step_replay. exact H. Qed.
 End Named.
+
+(* ---------- refinement at the level of histories ---------- *)
+Theorem run_refines_pylist (vld : Z -> option Z) : forall ops l,
+  map (fun p => o_after (snd p)) (run (tl_step vld) l ops) = pylist_run vld l ops.
+Proof.
+  induction ops as [|o ops IH]; intros l; cbn [run pylist_run map]; [reflexivity|].
+  destruct (step_refines vld l o) as (_ & HA & _). cbv zeta in HA. cbn [snd]. rewrite HA, IH. reflexivity.
+Qed.
